@@ -423,6 +423,13 @@ class Evaluator:
             return ordering
         if name in ("min", "max") and n == 2:
             return lambda args, fn: (args[0] if ok(args[0]) <= ok(args[1]) else args[1]) if name == "min" else (args[1] if ok(args[1]) >= ok(args[0]) else args[0])
+        if name in ("Shl", "Shr") and n == 2:
+            def shift(args, fn):
+                a, b = int(args[0]), int(args[1])
+                if b < 0 or b > 127:
+                    raise Unmodelled("%s: shift by %d" % (fn.id, b))
+                return ("checked", a << b if name == "Shl" else a >> b)
+            return guard(ints, shift)
         if name in ("BitAnd", "BitOr", "BitXor") and n == 2:
             op = {"BitAnd": lambda a, b: a & b, "BitOr": lambda a, b: a | b, "BitXor": lambda a, b: a ^ b}[name]
             return guard(ints, lambda args, fn: op(args[0], args[1]))
